@@ -406,8 +406,60 @@ if MODEL:
         c.obligations.append(ob)
         return worst is True
 
+    def assume_nonzero(expr):
+        """the statement is about non-degenerate grids: expr != 0 is added to the path condition"""
+        ctx().assume(ca.tz(ca._coerce(expr).e[0]) != 0)
+
+    def assume_positive(expr):
+        ctx().assume(ca.tz(ca._coerce(expr).e[0]) > 0)
+
 else:
     import numpy as np
+
+    def _values_for(syms, point):
+        import hashlib
+        vals = []
+        for s_ in syms:
+            h = hashlib.sha256(("%s/%d" % (s_.name(), point)).encode()).digest()
+            rs = np.random.RandomState(int.from_bytes(h[:4], "little"))
+            vals.append(rs.uniform(0.3, 1.4, size=s_.shape))
+        return vals
+
+    def _eval_pair(a, b, npoints=2):
+        a, b = ca.MX(a), ca.MX(b)
+        syms = ca.symvar(ca.veccat(ca.vec(a), ca.vec(b)))
+        F = ca.Function("F", syms, [a, b])
+        out = []
+        for q in range(npoints):
+            vals = _values_for(syms, q)
+            r = F.call(vals)
+            out.append((np.array(r[0]), np.array(r[1]), dict((s_.name(), np.array(v).reshape(-1).tolist()) for s_, v in zip(syms, vals))))
+        return out
+
+    def prove_equal(name, a, b, detail=None, tol=1e-7):
+        """native replay of an equality obligation: both sides evaluated at random values of every symbol"""
+        from vc.core import ctx, Obligation
+        c = ctx()
+        a, b = ca.MX(a), ca.MX(b)
+        if a.shape != b.shape:
+            c.obligations.append(Obligation(name, "refuted", "shape %s vs expected %s" % (a.shape, b.shape)))
+            return False
+        for ga, gb, point in _eval_pair(a, b):
+            if not np.allclose(ga, gb, rtol=tol, atol=tol, equal_nan=True):
+                c.obligations.append(Obligation(name, "refuted", dict(observed=ga.reshape(-1).tolist()[:12], expected=gb.reshape(-1).tolist()[:12],
+                                                                        at={k: v[:6] for k, v in list(point.items())[:12]})))
+                return False
+        c.obligations.append(Obligation(name, "discharged", detail))
+        return True
+
+    def prove_close(name, a, b, tol=1e-9, bernstein=None):
+        return prove_equal(name, a, b, tol=1e-7)
+
+    def assume_nonzero(expr):
+        pass
+
+    def assume_positive(expr):
+        pass
 
     def numeric_rows(opti, orc, npoints=3, seed=0, extra_out=()):
         """evaluate rockit's NLP rows and the oracle's rows at random (x, p)"""
